@@ -41,7 +41,9 @@ func otfToBCP47(script otfScript, lang otfLang) (language.Tag, error) {
 		tag += "-" + bcpScript
 	}
 
-	tag += "-x-" + string(script)
+	// Script tags like "lao " are padded with spaces, which cannot be part
+	// of a BCP 47 subtag.  The padding is restored in bcp47ToOtf.
+	tag += "-x-" + strings.TrimRight(string(script), " ")
 	for len(lang) > 0 && lang[len(lang)-1] == ' ' {
 		lang = lang[:len(lang)-1]
 	}
@@ -65,6 +67,9 @@ func bcp47ToOtf(tag language.Tag) (otfScript, otfLang, error) {
 		script = m[1]
 		if script == "dflt" {
 			script = "DFLT"
+		}
+		for len(script) < 4 {
+			script += " "
 		}
 		if len(m) > 2 {
 			lang = strings.ToUpper(m[2])
